@@ -790,6 +790,15 @@ func (x *Exec) step(fr *Frame, st *State, in ssa.Instruction) {
 		st.regs[t] = v
 	case *ssa.ChangeType:
 		v := x.val(st, t.X)
+		_, toTP := t.Type().(*types.TypeParam)
+		_, fromTP := t.X.Type().(*types.TypeParam)
+		switch {
+		case toTP && !fromTP && !types.IsInterface(t.X.Type()) && v.K == VTerm && v.T.Sort != SIface:
+			// concrete value viewed at a type parameter: type parameters are modelled as interfaces
+			v = Val{K: VTerm, T: x.makeIface(st, v, t.X.Type())}
+		case fromTP && !toTP && !types.IsInterface(t.Type()) && v.K == VTerm && v.T.Sort == SIface:
+			v = x.ifacePayload(v.T, t.Type())
+		}
 		v.Typ = t.Type()
 		st.regs[t] = v
 	case *ssa.Convert:
